@@ -302,6 +302,11 @@ func (c *Ctx) execInstr(fr *Frame, b *ssa.BasicBlock, idx int, in ssa.Instructio
 					}
 				}
 				if ok {
+					if po, isParam := fr.paramObjs[x.Object().Name()]; isParam && po != x.Object() {
+						// a local variable shadowing a parameter of the same name: contracts cannot name it;
+						// the name keeps denoting the parameter
+						return false
+					}
 					key := c.frameVarKey(fr, x.Object().Name())
 					if old, has := st.vars[key]; has && old.isAddr && !x.IsAddr {
 						// address-taken variable: keep the address binding (its value is read from current memory)
